@@ -12,7 +12,7 @@ from pjrpc.common.exceptions import BaseError, DeserializationError, IdentityErr
 from mc.core import explore_choices
 from mc.harness import clientrun as cr
 
-END_OUTCOMES = {'ok', 'code_listed', 'code_listed2', 'code_unlisted', 'level_listed', 'level_listed2', 'level_unlisted'}
+END_OUTCOMES = {'ok', 'ok_empty', 'code_listed', 'code_listed2', 'code_unlisted', 'level_listed', 'level_listed2', 'level_unlisted'}
 
 
 def gen_cases(ctx):
@@ -30,7 +30,10 @@ def gen_cases(ctx):
                                     continue
                                 if n is not None and n >= 4 and (T not in (1, 3) or rk == 'notifbatch'):
                                     continue
-                                yield dict(kind=kind, request=rk, via=via, tracers=T, ctx=tctx, c19=True,
+                                for extra in ({}, dict(in_except=True), dict(tracer_kinds=['partial', 'full', 'chain'][:T])):
+                                  if extra and (n not in (None, 1) or via != 'call' or T == 0):
+                                      continue
+                                  yield dict(extra, kind=kind, request=rk, via=via, tracers=T, ctx=tctx, c19=True,
                                            drop=['code_listed2', 'level_listed2', 'exc_listed2', 'exc_sub'],
                                            client_strategy=None if n is None else dict(
                                                attempts=n, codes='one', excs=excs, backoff=dict(family='periodic', interval=0)))
@@ -53,7 +56,9 @@ def check_execution(cfg, choices, obs, rec):
     want = []
     for k, name in enumerate(names):
         comp = 'end' if name in END_OUTCOMES else 'error'
-        want += [(t, 'begin', k) for t in range(T)] + [(t, comp, k) for t in range(T)]
+        kinds = cfg.get('tracer_kinds') or ['full'] * T
+        # a tracer that does not override on_error sees nothing for a failed attempt (and never an 'end')
+        want += [(t, 'begin', k) for t in range(T)] + [(t, comp, k) for t in range(T) if not (comp == 'error' and kinds[t] == 'partial')]
     got_shape = [(idx, what) for idx, what, _, _, _ in ev]
     if got_shape != [(t, w) for t, w, _ in want]:
         begins = sum(1 for _, w in got_shape if w == 'begin')
@@ -67,7 +72,7 @@ def check_execution(cfg, choices, obs, rec):
         return viol(rec, cfg, choices, sig, [(t, w) for t, w, _ in want], got_shape)
     # per event payloads and contexts
     for (idx, what, tctx, req, payload), (t, w, k) in zip(ev, want):
-        first_ctx = ev[k * 2 * T][2]
+        first_ctx = [e for e, w_ in zip(ev, want) if w_[2] == k][0][2]
         if tctx is not first_ctx:
             return viol(rec, cfg, choices, 'C19:trace context differs within one attempt', 'same object', (k, what))
         if cfg['ctx'] == 'supplied' and tctx is not obs['ctx']:
@@ -99,8 +104,9 @@ def check_execution(cfg, choices, obs, rec):
         if not (kind == 'exc' and v is last_body):
             return viol(rec, cfg, choices, 'C19:exception did not reach the caller unchanged', repr(last_body), (kind, repr(v)))
     elif last_name in ('notjson', 'notresp', 'identity', 'unexpected_body'):
-        last_err = ev[-1][4] if T else None
-        if kind != 'exc' or (T and v is not last_err):
+        errs = [e[4] for e in ev if e[1] == 'error']
+        last_err = errs[-1] if errs else None
+        if kind != 'exc' or (last_err is not None and v is not last_err):
             return viol(rec, cfg, choices, 'C19:exception did not reach the caller unchanged', repr(last_err), (kind, repr(v)))
     return (A, T, tuple(sorted({n for n in names})))
 
